@@ -1,1 +1,446 @@
+/-
+C08 — the k-way ordered merge: its output is a permutation of all input rows and, for sorted
+inputs and a total transitive order, sorted — for any number of inputs and any chunking
+(helper lemmas; the theorems are `OG.C08.merge_perm`, `merge_sorted`, `merge_chunk_invariant`).
+-/
 import OG.C08.Stream
+
+namespace OG.C08.Stream
+
+variable {ρ : Type}
+
+/-- an input whose current chunk has a row. -/
+def Normal (i : List (List ρ)) : Prop := ∃ r c cs, i = (r :: c) :: cs
+
+/-! ### normalisation -/
+
+theorem normInput_flatten (i : List (List ρ)) : (normInput i).flatten = i.flatten := by
+  induction i with
+  | nil => rfl
+  | cons c cs ih => cases c with
+    | nil => simpa [normInput] using ih
+    | cons r c => rfl
+
+theorem normInput_size (i : List (List ρ)) : inputSize (normInput i) ≤ inputSize i := by
+  induction i with
+  | nil => simp [normInput]
+  | cons c cs ih => cases c with
+    | nil =>
+      simp only [normInput, inputSize, List.length_cons, List.flatten_cons, List.nil_append] at ih ⊢
+      omega
+    | cons r c => simp [normInput]
+
+theorem normInput_normal (i : List (List ρ)) (h : normInput i ≠ []) : Normal (normInput i) := by
+  induction i with
+  | nil => simp [normInput] at h
+  | cons c cs ih => cases c with
+    | nil => simp only [normInput] at h ⊢; exact ih h
+    | cons r c => exact ⟨r, c, cs, rfl⟩
+
+theorem normInputs_cons (i : List (List ρ)) (is : List (List (List ρ))) :
+    normInputs (i :: is)
+      = if (normInput i).isEmpty then normInputs is else normInput i :: normInputs is := by
+  simp only [normInputs, List.map_cons, List.filter_cons]
+  cases h : (normInput i).isEmpty <;> simp
+
+theorem allRows_cons (i : List (List ρ)) (is : List (List (List ρ))) :
+    allRows (i :: is) = i.flatten ++ allRows is := by
+  simp [allRows]
+
+theorem totalSize_cons (i : List (List ρ)) (is : List (List (List ρ))) :
+    totalSize (i :: is) = inputSize i + totalSize is := by
+  simp [totalSize]
+
+theorem normInputs_rows (ins : List (List (List ρ))) : allRows (normInputs ins) = allRows ins := by
+  induction ins with
+  | nil => rfl
+  | cons i is ih =>
+    rw [normInputs_cons, allRows_cons]
+    by_cases h : (normInput i).isEmpty
+    · simp only [h, if_true, ih]
+      have : normInput i = [] := List.isEmpty_iff.mp h
+      have h2 := normInput_flatten i
+      rw [this] at h2
+      simp [← h2]
+    · simp only [h, Bool.false_eq_true, if_false, allRows_cons, ih, normInput_flatten]
+
+theorem normInputs_size (ins : List (List (List ρ))) : totalSize (normInputs ins) ≤ totalSize ins := by
+  induction ins with
+  | nil => simp [normInputs]
+  | cons i is ih =>
+    rw [normInputs_cons, totalSize_cons]
+    by_cases h : (normInput i).isEmpty
+    · simp only [h, if_true]; omega
+    · simp only [h, Bool.false_eq_true, if_false, totalSize_cons]
+      have := normInput_size i
+      omega
+
+theorem normInputs_normal (ins : List (List (List ρ))) : ∀ i ∈ normInputs ins, Normal i := by
+  induction ins with
+  | nil => simp [normInputs]
+  | cons i is ih =>
+    rw [normInputs_cons]
+    by_cases h : (normInput i).isEmpty
+    · simpa [h] using ih
+    · simp only [h, Bool.false_eq_true, if_false, List.mem_cons]
+      intro j hj
+      rcases hj with rfl | hj
+      · exact normInput_normal i (fun e => h (by simp [e]))
+      · exact ih j hj
+
+/-- every input left after normalisation has the rows of an input there was. -/
+theorem normInputs_from (ins : List (List (List ρ))) :
+    ∀ i ∈ normInputs ins, ∃ j ∈ ins, i.flatten = j.flatten := by
+  induction ins with
+  | nil => simp [normInputs]
+  | cons i is ih =>
+    rw [normInputs_cons]
+    by_cases h : (normInput i).isEmpty
+    · simp only [h, if_true]
+      intro k hk
+      obtain ⟨j, hj, e⟩ := ih k hk
+      exact ⟨j, by simp [hj], e⟩
+    · simp only [h, Bool.false_eq_true, if_false, List.mem_cons]
+      intro k hk
+      rcases hk with rfl | hk
+      · exact ⟨i, by simp, normInput_flatten i⟩
+      · obtain ⟨j, hj, e⟩ := ih k hk
+        exact ⟨j, by simp [hj], e⟩
+
+/-! ### `extractMin` -/
+
+theorem extractMin_perm (le : ρ → ρ → Bool) :
+    ∀ (ins : List (List (List ρ))) (cur : List (List ρ)) (others : List (List (List ρ))),
+      extractMin le ins = some (cur, others) → (cur :: others).Perm ins := by
+  intro ins
+  induction ins with
+  | nil => intro cur others h; simp [extractMin] at h
+  | cons i is ih =>
+    intro cur others h
+    unfold extractMin at h
+    cases hm : extractMin le is with
+    | none =>
+      rw [hm] at h
+      simp only [Option.some.injEq, Prod.mk.injEq] at h
+      obtain ⟨rfl, rfl⟩ := h
+      cases is with
+      | nil => exact List.Perm.refl _
+      | cons j js =>
+        unfold extractMin at hm
+        cases h2 : extractMin le js <;> simp [h2] at hm
+        split at hm <;> simp at hm
+    | some p =>
+      obtain ⟨j, rest⟩ := p
+      rw [hm] at h
+      have hp := ih j rest hm
+      by_cases hl : leHead le i j
+      · simp only [hl, if_true, Option.some.injEq, Prod.mk.injEq] at h
+        obtain ⟨rfl, rfl⟩ := h
+        exact List.Perm.cons _ hp
+      · simp only [hl, Bool.false_eq_true, if_false, Option.some.injEq, Prod.mk.injEq] at h
+        obtain ⟨rfl, rfl⟩ := h
+        exact (List.Perm.swap _ _ _).trans (List.Perm.cons _ hp)
+
+theorem extractMin_none (le : ρ → ρ → Bool) (ins : List (List (List ρ))) :
+    extractMin le ins = none → ins = [] := by
+  cases ins with
+  | nil => intro _; rfl
+  | cons i is =>
+    intro h
+    unfold extractMin at h
+    cases hm : extractMin le is with
+    | none => simp [hm] at h
+    | some p =>
+      obtain ⟨j, rest⟩ := p
+      simp only [hm] at h
+      split at h <;> simp at h
+
+theorem headOf_normal (i : List (List ρ)) (h : Normal i) : ∃ a, headOf i = some a := by
+  obtain ⟨r, c, cs, rfl⟩ := h
+  exact ⟨r, rfl⟩
+
+/-- the popped input has the least current row. -/
+theorem extractMin_min (le : ρ → ρ → Bool) (htot : ∀ a b, le a b = true ∨ le b a = true)
+    (htrans : ∀ a b c, le a b = true → le b c = true → le a c = true) :
+    ∀ (ins : List (List (List ρ))) (cur : List (List ρ)) (others : List (List (List ρ))),
+      (∀ i ∈ ins, Normal i) → extractMin le ins = some (cur, others) →
+      ∀ a, headOf cur = some a → ∀ j ∈ others, ∀ b, headOf j = some b → le a b = true := by
+  intro ins
+  induction ins with
+  | nil => intro cur others _ h; simp [extractMin] at h
+  | cons i is ih =>
+    intro cur others hn h a ha j hj b hb
+    have hni : Normal i := hn i (by simp)
+    have hnis : ∀ k ∈ is, Normal k := fun k hk => hn k (by simp [hk])
+    unfold extractMin at h
+    cases hm : extractMin le is with
+    | none =>
+      rw [hm] at h
+      simp only [Option.some.injEq, Prod.mk.injEq] at h
+      obtain ⟨rfl, rfl⟩ := h
+      simp at hj
+    | some p =>
+      obtain ⟨m, rest⟩ := p
+      rw [hm] at h
+      have hmin := ih m rest hnis hm
+      have hperm := extractMin_perm le is m rest hm
+      have hnm : Normal m := hnis m (hperm.subset (by simp))
+      obtain ⟨hm0, hhm⟩ := headOf_normal m hnm
+      obtain ⟨hi0, hhi⟩ := headOf_normal i hni
+      by_cases hl : leHead le i m
+      · simp only [hl, if_true, Option.some.injEq, Prod.mk.injEq] at h
+        obtain ⟨rfl, rfl⟩ := h
+        have him : le a hm0 = true := by
+          unfold leHead at hl
+          rw [ha, hhm] at hl
+          exact hl
+        simp only [List.mem_cons] at hj
+        rcases hj with rfl | hj
+        · rw [hhm] at hb; cases hb; exact him
+        · exact htrans _ _ _ him (hmin hm0 hhm j hj b hb)
+      · simp only [hl, Bool.false_eq_true, if_false, Option.some.injEq, Prod.mk.injEq] at h
+        obtain ⟨rfl, rfl⟩ := h
+        have hmi : le a hi0 = true := by
+          unfold leHead at hl
+          rw [hhi, ha] at hl
+          rcases htot a hi0 with h1 | h1
+          · exact h1
+          · exact absurd h1 (by simpa using hl)
+        simp only [List.mem_cons] at hj
+        rcases hj with rfl | hj
+        · rw [hhi] at hb; cases hb; exact hmi
+        · exact hmin a ha j hj b hb
+
+/-! ### `takeRun` -/
+
+theorem takeRun_append (le : ρ → ρ → Bool) (bp : Option ρ) (c : List ρ) :
+    (takeRun le bp c).1 ++ (takeRun le bp c).2 = c := by
+  induction c with
+  | nil => rfl
+  | cons r rs ih =>
+    cases bp with
+    | none => simp [takeRun]
+    | some b =>
+      by_cases h : le r b
+      · simp only [takeRun, h, if_true, List.cons_append]
+        rw [ih]
+      · simp [takeRun, h]
+
+theorem takeRun_le (le : ρ → ρ → Bool) (b : ρ) (c : List ρ) :
+    ∀ a ∈ (takeRun le (some b) c).1, le a b = true := by
+  induction c with
+  | nil => simp [takeRun]
+  | cons r rs ih =>
+    by_cases h : le r b
+    · simp only [takeRun, h, if_true, List.mem_cons]
+      intro a ha
+      rcases ha with rfl | ha
+      · exact h
+      · exact ih a ha
+    · simp [takeRun, h]
+
+theorem takeRun_progress (le : ρ → ρ → Bool) (bp : Option ρ) (r : ρ) (c : List ρ)
+    (h : ∀ b, bp = some b → le r b = true) : 1 ≤ (takeRun le bp (r :: c)).1.length := by
+  cases bp with
+  | none => simp [takeRun]
+  | some b => simp [takeRun, h b rfl]
+
+/-! ### sizes and rows under a permutation of the inputs -/
+
+theorem totalSize_perm {xs ys : List (List (List ρ))} (h : xs.Perm ys) : totalSize xs = totalSize ys := by
+  induction h with
+  | nil => rfl
+  | cons x _ ih => simp [totalSize_cons, ih]
+  | swap x y l => simp [totalSize_cons]; omega
+  | trans _ _ ih1 ih2 => exact ih1.trans ih2
+
+theorem allRows_perm {xs ys : List (List (List ρ))} (h : xs.Perm ys) : (allRows xs).Perm (allRows ys) :=
+  (h.map List.flatten).flatten
+
+/-- one step: what is emitted and what is left are the rows there were. -/
+theorem step_rows (le : ρ → ρ → Bool) (bp : Option ρ) (c : List ρ) (cs : List (List ρ))
+    (others : List (List (List ρ))) :
+    (takeRun le bp c).1 ++ allRows (((takeRun le bp c).2 :: cs) :: others) = allRows ((c :: cs) :: others) := by
+  simp only [allRows_cons, List.flatten_cons, ← List.append_assoc, takeRun_append]
+
+theorem step_size (le : ρ → ρ → Bool) (bp : Option ρ) (c : List ρ) (cs : List (List ρ))
+    (others : List (List (List ρ))) (h : 1 ≤ (takeRun le bp c).1.length) :
+    totalSize (((takeRun le bp c).2 :: cs) :: others) < totalSize ((c :: cs) :: others) := by
+  have e := congrArg List.length (takeRun_append le bp c)
+  simp only [List.length_append] at e
+  simp only [totalSize_cons, inputSize, List.length_cons, List.flatten_cons, List.length_append]
+  omega
+
+/-- unfolding one step of the merge on a state whose popped input is `(r :: c) :: cs`. -/
+theorem mergeGo_step (le : ρ → ρ → Bool) (fuel : Nat) (ins : List (List (List ρ)))
+    (r : ρ) (c : List ρ) (cs : List (List ρ)) (others : List (List (List ρ)))
+    (h : extractMin le (normInputs ins) = some ((r :: c) :: cs, others)) :
+    mergeGo le (fuel + 1) ins
+      = (takeRun le ((extractMin le others).bind (fun p => headOf p.1)) (r :: c)).1
+        ++ mergeGo le fuel (((takeRun le ((extractMin le others).bind (fun p => headOf p.1)) (r :: c)).2 :: cs) :: others) := by
+  simp [mergeGo, h]
+
+/-- the break point is not before the current row of the popped input. -/
+theorem breakPoint_ge (le : ρ → ρ → Bool) (htot : ∀ a b, le a b = true ∨ le b a = true)
+    (htrans : ∀ a b c, le a b = true → le b c = true → le a c = true)
+    (ins : List (List (List ρ))) (hn : ∀ i ∈ ins, Normal i)
+    (r : ρ) (c : List ρ) (cs : List (List ρ)) (others : List (List (List ρ)))
+    (h : extractMin le ins = some ((r :: c) :: cs, others)) :
+    ∀ b, (extractMin le others).bind (fun p => headOf p.1) = some b → le r b = true := by
+  intro b hb
+  cases hm : extractMin le others with
+  | none => simp [hm] at hb
+  | some p =>
+    obtain ⟨m, rest⟩ := p
+    simp only [hm, Option.bind_some] at hb
+    have hperm := extractMin_perm le others m rest hm
+    have hmem : m ∈ others := hperm.subset (by simp)
+    exact extractMin_min le htot htrans ins _ others hn h r rfl m hmem b hb
+
+/-- **the output of the merge is a permutation of all rows of all inputs**, whatever the number
+of inputs and the chunking. -/
+theorem mergeGo_perm (le : ρ → ρ → Bool) (htot : ∀ a b, le a b = true ∨ le b a = true)
+    (htrans : ∀ a b c, le a b = true → le b c = true → le a c = true) :
+    ∀ (fuel : Nat) (ins : List (List (List ρ))), totalSize ins < fuel →
+      (mergeGo le fuel ins).Perm (allRows ins) := by
+  intro fuel
+  induction fuel with
+  | zero => intro ins h; omega
+  | succ fuel ih =>
+    intro ins hsz
+    have hn := normInputs_normal ins
+    cases hm : extractMin le (normInputs ins) with
+    | none =>
+      have he := extractMin_none le _ hm
+      have hr := normInputs_rows ins
+      rw [he] at hr
+      simp only [mergeGo, hm]
+      rw [← hr]
+      exact List.Perm.refl _
+    | some p =>
+      obtain ⟨cur, others⟩ := p
+      have hperm := extractMin_perm le _ cur others hm
+      have hcur : Normal cur := hn cur (hperm.subset (by simp))
+      obtain ⟨r, c, cs, rfl⟩ := hcur
+      rw [mergeGo_step le fuel ins r c cs others hm]
+      have hbp := breakPoint_ge le htot htrans _ hn r c cs others hm
+      have hprog := takeRun_progress le _ r c hbp
+      have hlt := step_size le _ (r :: c) cs others hprog
+      have hsz' : totalSize (((r :: c) :: cs) :: others) ≤ totalSize ins := by
+        rw [totalSize_perm hperm]; exact normInputs_size ins
+      have hrec := ih (((takeRun le ((extractMin le others).bind (fun p => headOf p.1)) (r :: c)).2 :: cs) :: others) (by omega)
+      have hrows := step_rows le ((extractMin le others).bind (fun p => headOf p.1)) (r :: c) cs others
+      refine ((List.Perm.refl _).append hrec).trans ?_
+      rw [hrows, ← normInputs_rows ins]
+      exact allRows_perm hperm
+
+theorem allRows_mem {ins : List (List (List ρ))} {b : ρ} (h : b ∈ allRows ins) :
+    ∃ j ∈ ins, b ∈ j.flatten := by
+  simp only [allRows, List.mem_flatten, List.mem_map] at h
+  obtain ⟨l, ⟨j, hj, rfl⟩, hb⟩ := h
+  exact ⟨j, hj, hb⟩
+
+/-- the current row of a sorted input is not after any of its rows. -/
+theorem head_le_all (le : ρ → ρ → Bool) (htot : ∀ a b, le a b = true ∨ le b a = true)
+    (j : List (List ρ)) (a : ρ) (ha : headOf j = some a)
+    (hs : j.flatten.Pairwise (fun x y => le x y = true)) : ∀ b ∈ j.flatten, le a b = true := by
+  cases j with
+  | nil => simp [headOf] at ha
+  | cons c cs =>
+    cases c with
+    | nil => simp [headOf] at ha
+    | cons r c =>
+      simp only [headOf, Option.some.injEq] at ha
+      subst ha
+      simp only [List.flatten_cons, List.cons_append, List.pairwise_cons] at hs
+      intro b hb
+      simp only [List.flatten_cons, List.cons_append, List.mem_cons] at hb
+      rcases hb with rfl | hb
+      · rcases htot b b with h | h <;> exact h
+      · exact hs.1 b hb
+
+/-- **for sorted inputs (and a total, transitive order) the output of the merge is sorted.** -/
+theorem mergeGo_sorted (le : ρ → ρ → Bool) (htot : ∀ a b, le a b = true ∨ le b a = true)
+    (htrans : ∀ a b c, le a b = true → le b c = true → le a c = true) :
+    ∀ (fuel : Nat) (ins : List (List (List ρ))), totalSize ins < fuel →
+      (∀ i ∈ ins, i.flatten.Pairwise (fun x y => le x y = true)) →
+      (mergeGo le fuel ins).Pairwise (fun x y => le x y = true) := by
+  intro fuel
+  induction fuel with
+  | zero => intro ins h; omega
+  | succ fuel ih =>
+    intro ins hsz hsorted
+    have hn := normInputs_normal ins
+    have hsn : ∀ i ∈ normInputs ins, i.flatten.Pairwise (fun x y => le x y = true) := by
+      intro i hi
+      obtain ⟨j, hj, e⟩ := normInputs_from ins i hi
+      rw [e]; exact hsorted j hj
+    cases hm : extractMin le (normInputs ins) with
+    | none => simp [mergeGo, hm]
+    | some p =>
+      obtain ⟨cur, others⟩ := p
+      have hperm := extractMin_perm le _ cur others hm
+      have hcur : Normal cur := hn cur (hperm.subset (by simp))
+      obtain ⟨r, c, cs, rfl⟩ := hcur
+      rw [mergeGo_step le fuel ins r c cs others hm]
+      have hbp := breakPoint_ge le htot htrans _ hn r c cs others hm
+      have hprog := takeRun_progress le _ r c hbp
+      have hlt := step_size le _ (r :: c) cs others hprog
+      have hsz' : totalSize (((r :: c) :: cs) :: others) ≤ totalSize ins := by
+        rw [totalSize_perm hperm]; exact normInputs_size ins
+      generalize hbpv : (extractMin le others).bind (fun p => headOf p.1) = bp at hbp hprog hlt ⊢
+      have hcs : ((r :: c) :: cs).flatten.Pairwise (fun x y => le x y = true) :=
+        hsn _ (hperm.subset (by simp))
+      have hos : ∀ j ∈ others, j.flatten.Pairwise (fun x y => le x y = true) :=
+        fun j hj => hsn j (hperm.subset (by simp [hj]))
+      have hno : ∀ j ∈ others, Normal j := fun j hj => hn j (hperm.subset (by simp [hj]))
+      have happ := takeRun_append le bp (r :: c)
+      -- the popped input, split at the break point
+      have hsplit : ((r :: c) :: cs).flatten
+          = (takeRun le bp (r :: c)).1 ++ ((takeRun le bp (r :: c)).2 ++ cs.flatten) := by
+        rw [← List.append_assoc, happ]; simp
+      rw [hsplit, List.pairwise_append] at hcs
+      obtain ⟨hrun, hrest, hcross⟩ := hcs
+      -- the new state is sorted, so is the rest of the output
+      have hnew : ∀ i ∈ ((takeRun le bp (r :: c)).2 :: cs) :: others,
+          i.flatten.Pairwise (fun x y => le x y = true) := by
+        intro i hi
+        simp only [List.mem_cons] at hi
+        rcases hi with rfl | hi
+        · simpa using hrest
+        · exact hos i hi
+      have hrec := ih (((takeRun le bp (r :: c)).2 :: cs) :: others) (by omega) hnew
+      have hpermRec := mergeGo_perm le htot htrans fuel (((takeRun le bp (r :: c)).2 :: cs) :: others) (by omega)
+      rw [List.pairwise_append]
+      refine ⟨hrun, hrec, ?_⟩
+      intro a ha b hb
+      have hb' := (hpermRec.mem_iff).1 hb
+      rw [allRows_cons] at hb'
+      simp only [List.mem_append] at hb'
+      rcases hb' with hb' | hb'
+      · exact hcross a ha b (by simpa using hb')
+      · -- a row of another input: not before the break point
+        obtain ⟨j, hj, hbj⟩ := allRows_mem hb'
+        cases hmo : extractMin le others with
+        | none => rw [extractMin_none le _ hmo] at hj; simp at hj
+        | some q =>
+          obtain ⟨m, rest⟩ := q
+          have hpo := extractMin_perm le others m rest hmo
+          have hmm : m ∈ others := hpo.subset (by simp)
+          obtain ⟨hm0, hhm⟩ := headOf_normal m (hno m hmm)
+          have hbpe : bp = some hm0 := by rw [← hbpv, hmo]; simpa using hhm
+          have h1 : le a hm0 = true := by
+            have := takeRun_le le hm0 (r :: c) a (by rw [← hbpe]; exact ha)
+            exact this
+          obtain ⟨hj0, hhj⟩ := headOf_normal j (hno j hj)
+          have h2 : le hm0 hj0 = true := by
+            have hjm : j ∈ m :: rest := hpo.symm.subset hj
+            simp only [List.mem_cons] at hjm
+            rcases hjm with rfl | hjr
+            · rw [hhm] at hhj; cases hhj
+              rcases htot hm0 hm0 with h | h <;> exact h
+            · exact extractMin_min le htot htrans others m rest hno hmo hm0 hhm j hjr hj0 hhj
+          have h3 := head_le_all le htot j hj0 hhj (hos j hj) b hbj
+          exact htrans _ _ _ h1 (htrans _ _ _ h2 h3)
+
+end OG.C08.Stream
